@@ -269,6 +269,36 @@ def closed(schema):
     for op, t in (("query", schema.query_type), ("mutation", schema.mutation_type), ("subscription", schema.subscription_type)):
         if t is not None:
             chk("root %s" % op, t)
+    # the by-name views every element offers next to its member list (field_map, argument_map, the enum's name / value lookups) show exactly the members:
+    # a view left over from before an operation keeps removed members reachable and hands out the source's objects
+    def view(where, mapping, members):
+        try:
+            ok = list(mapping.keys()) == [m.name for m in members] and all(mapping[m.name] is m for m in members)
+        except Exception as e:
+            ok = False
+            where = "%s (%r)" % (where, e)
+        if not ok:
+            bad.append("%s lists %s, the members are %s%s" % (where, sorted(mapping) if hasattr(mapping, "keys") else mapping, sorted(m.name for m in members),
+                                                              "" if sorted(getattr(mapping, "keys", list)()) != sorted(m.name for m in members) else " (other objects)"))
+    for name, t in schema.types.items():
+        if name.startswith("__"):
+            continue
+        if isinstance(t, (ObjectType, InterfaceType, InputObjectType)) and hasattr(t, "field_map"):
+            view("%s.field_map" % name, t.field_map, list(t.fields))
+        if isinstance(t, (ObjectType, InterfaceType)):
+            for f in t.fields:
+                if hasattr(f, "argument_map"):
+                    view("%s.%s.argument_map" % (name, f.name), f.argument_map, list(f.arguments))
+        if isinstance(t, EnumType):
+            for v in t.values:
+                try:
+                    if t.get_value(v.name) != v.value or t.get_name(v.value) != [w for w in t.values if w.value == v.value][-1].name:
+                        bad.append("enum %s: lookups disagree with the member %s" % (name, v.name))
+                except Exception as e:
+                    bad.append("enum %s: member %s cannot be looked up (%r)" % (name, v.name, e))
+    for d in schema.directives.values():
+        if hasattr(d, "argument_map"):
+            view("@%s.argument_map" % d.name, d.argument_map, list(d.arguments))
     return bad
 
 
